@@ -24,6 +24,7 @@ package c08
 
 import (
 	"context"
+	"crypto/ecdsa"
 	"crypto/sha256"
 	"encoding/binary"
 	"encoding/hex"
@@ -44,7 +45,7 @@ import (
 	govv1beta1 "github.com/cosmos/cosmos-sdk/x/gov/types/v1beta1"
 	slashingtypes "github.com/cosmos/cosmos-sdk/x/slashing/types"
 	stakingtypes "github.com/cosmos/cosmos-sdk/x/staking/types"
-	"github.com/ethereum/go-ethereum/common"
+	"github.com/ethereum/go-ethereum/crypto"
 	"github.com/onsi/ginkgo/v2"
 	"github.com/palomachain/paloma/v2/tests/integration/helper"
 	"github.com/palomachain/paloma/v2/util/libcons"
@@ -236,8 +237,23 @@ func (w *appWorld) meta(i int) valsettypes.MsgMetadata {
 	return valsettypes.MsgMetadata{Creator: w.acc(i), Signers: []string{w.acc(i)}}
 }
 
+// ethKey: the validator's key on an external chain (deterministic).  The external account's address
+// is derived from it and its "pubkey" is the 20 address bytes (what the evm queues verify against).
+func ethKey(v, c int, salt string) *ecdsa.PrivateKey {
+	seed := sha256.Sum256([]byte(fmt.Sprintf("c08-eth-%d-%d-%s", v, c, salt)))
+	k, err := crypto.ToECDSA(seed[:])
+	if err != nil {
+		panic(err)
+	}
+	return k
+}
+
 func remoteAddr(v, c int, salt string) string {
-	return common.BytesToAddress([]byte(fmt.Sprintf("c08-remote-%d-%d-%s", v, c, salt))).Hex()
+	return crypto.PubkeyToAddress(ethKey(v, c, salt).PublicKey).Hex()
+}
+
+func remotePub(v, c int, salt string) []byte {
+	return crypto.PubkeyToAddress(ethKey(v, c, salt).PublicKey).Bytes()
 }
 
 func (w *appWorld) genesis() {
@@ -273,7 +289,7 @@ func (w *appWorld) genesis() {
 		var infos []*valsettypes.ExternalChainInfo
 		for c := 0; c < g.NChains; c++ {
 			infos = append(infos, &valsettypes.ExternalChainInfo{ChainType: "evm", ChainReferenceID: appChains[c], Address: remoteAddr(i, c, ""),
-				Pubkey: []byte(fmt.Sprintf("c08-pubkey-%d-%d", i, c)), Traits: g.Traits[i]})
+				Pubkey: remotePub(i, c, ""), Traits: g.Traits[i]})
 		}
 		must(f.ValsetKeeper.AddExternalChainInfo(ctx, op, infos))
 		fs := &treasurytypes.RelayerFeeSetting{ValAddress: op.String()}
@@ -518,7 +534,7 @@ func (w *appWorld) execMsg(ctx sdk.Context, m appMsg) (obs string, err error) {
 				continue
 			}
 			infos = append(infos, &valsettypes.ExternalChainInfo{ChainType: "evm", ChainReferenceID: appChains[c], Address: remoteAddr(v, c, m.Data),
-				Pubkey: []byte(fmt.Sprintf("c08-pubkey-%d-%d%s", v, c, m.Data)), Traits: m.Trait})
+				Pubkey: remotePub(v, c, m.Data), Traits: m.Trait})
 		}
 		_, err = w.valsetMS.AddExternalChainInfoForValidator(ctx, &valsettypes.MsgAddExternalChainInfoForValidator{ChainInfos: infos, Metadata: w.meta(v)})
 	case "fee":
@@ -556,6 +572,29 @@ func (w *appWorld) execMsg(ctx sdk.Context, m appMsg) (obs string, err error) {
 		if err == nil {
 			obs = fmt.Sprintf("id=%d assignee=%s", id, w.assigneeOf(ctx, chain, id))
 		}
+	case "sign":
+		// the validator signs the target message with its key on that chain (Data = the salt of the key: "" is the
+		// key registered at genesis, anything else only verifies after a matching extinfo)
+		q, id := w.target(ctx, m)
+		var sig []byte
+		for _, qm := range w.queuedOf(ctx, chain) {
+			if qm.queue == q && qm.msg.GetId() == id {
+				bz, berr := qm.msg.GetBytesToSign(f.Codec)
+				if berr != nil {
+					return "", berr
+				}
+				sig, err = crypto.Sign(crypto.Keccak256(append([]byte(evmkeeper.SignaturePrefix), bz...)), ethKey(v, m.Chain%g.NChains, m.Data))
+				if err != nil {
+					return "", err
+				}
+			}
+		}
+		if m.Level != 0 && len(sig) > 0 { // a corrupted signature
+			sig[0] ^= 0xff
+		}
+		_, err = w.consMS.AddMessagesSignatures(ctx, &consensustypes.MsgAddMessagesSignatures{Metadata: w.meta(v),
+			SignedMessages: []*consensustypes.ConsensusMessageSignature{{Id: id, QueueTypeName: q, Signature: sig, SignedByAddress: remoteAddr(v, m.Chain%g.NChains, m.Data)}}})
+		obs = fmt.Sprintf("id=%d", id)
 	case "estimate":
 		q, id := w.target(ctx, m)
 		_, err = w.consMS.AddMessageEstimates(ctx, &consensustypes.MsgAddMessageGasEstimates{Metadata: w.meta(v),
